@@ -64,7 +64,8 @@ func loopPos(li *loopInfo) token.Pos {
 			continue
 		}
 		for _, in := range b.Instrs {
-			if p := in.Pos(); p.IsValid() && (best == token.NoPos || p < best) {
+			// the latest position in the loop is inside its body, where the loop variables are in scope
+			if p := in.Pos(); p.IsValid() && (best == token.NoPos || p > best) {
 				best = p
 			}
 		}
@@ -98,6 +99,7 @@ func (f *frame) loopInvariants(b *ssa.BasicBlock, li *loopInfo, phis []*ssa.Phi)
 			if l == li {
 				for _, cl := range ct.Loops[fmt.Sprintf("#%d", ord+1)] {
 					pos := loopPos(li)
+					cl.loopVars = rangeLoopVars(li)
 					if err := f.vc.P.prepare(cl, f.fn, pos); err != nil {
 						unsup("loop invariant: %v", err)
 					}
@@ -116,6 +118,7 @@ func (f *frame) loopInvariants(b *ssa.BasicBlock, li *loopInfo, phis []*ssa.Phi)
 				for _, k := range keys {
 					for _, cl := range ct.Loops[k] {
 						pos := loopPos(li)
+						cl.loopVars = rangeLoopVars(li)
 						if err := f.vc.P.prepare(cl, f.fn, pos); err != nil {
 							unsup("loop invariant: %v", err)
 						}
@@ -228,6 +231,9 @@ func (f *frame) checkPre(callee *ssa.Function, ct *Contract, args []Term, pos to
 		if err := vc.P.prepare(cl, callee, contractPos(callee)); err != nil {
 			unsup("%v", err)
 		}
+		if cl.usesGhost {
+			unsup("precondition %q of %s mentions call events", cl.Name, callee.Name())
+		}
 		env := g.env(cl, nil)
 		env.now, env.old = pre, pre
 		goal := env.eval(cl.expr)
@@ -268,6 +274,10 @@ func (f *frame) contractCall(callee *ssa.Function, ct *Contract, c *ssa.CallComm
 	for _, cl := range ct.Ensures {
 		if err := vc.P.prepare(cl, callee, contractPos(callee)); err != nil {
 			unsup("%v", err)
+		}
+		if cl.usesGhost {
+			// call events are relative to the callee's own entry: such a clause says nothing usable here
+			continue
 		}
 		env := g.env(cl, rs)
 		env.now, env.old = f.st, pre
@@ -476,4 +486,26 @@ func (f *frame) genCandidates(b *ssa.BasicBlock, li *loopInfo, phis []*ssa.Phi) 
 	// slices that only shrink from the front keep a valid shape; nothing to add: type invariants are assumed for phis.
 	_ = strings.Join
 	return out
+}
+
+// rangePhi returns the hidden index phi of a range-over-slice loop (nil otherwise).
+func rangePhi(hdr *ssa.BasicBlock) *ssa.Phi {
+	for _, in := range hdr.Instrs {
+		phi, ok := in.(*ssa.Phi)
+		if !ok {
+			break
+		}
+		if phi.Comment == "rangeindex" {
+			return phi
+		}
+	}
+	return nil
+}
+
+// rangeLoopVars: ghost variables offered to invariants of a range loop: idx = elements already processed.
+func rangeLoopVars(li *loopInfo) []string {
+	if rangePhi(li.header) != nil {
+		return []string{"idx"}
+	}
+	return nil
 }
